@@ -24,6 +24,8 @@ var (
 	v2VarParams = []*v2.Param{{Name: "args", Variable: true}}
 	v2IDParams  = []*v2.Param{{Name: "x"}}
 	v2AnyRet    = []*v2.Param{{Desc: "value"}}
+	// move(from, to, keep=false) returns [from, to, keep]: required and default-valued parameters in one list
+	v2MoveParams = []*v2.Param{{Name: "from"}, {Name: "to"}, {Name: "keep", Val: func() any { return false }}}
 	// dflt(l=["d"], m={"k": 1}) returns [l, m]: default values that reach the script as they are
 	v2DfltParams = []*v2.Param{
 		{Name: "l", Val: func() any { return []any{"d"} }},
@@ -132,6 +134,22 @@ func V2Fns() map[string]*v2.Fn {
 			CallCheck: v2check(nil),
 			Call: func(ctx *v2.Task, e *ast.CallExpr) *errchain.PlError {
 				ctx.Regs.ReturnAppend(v2.V{V: int64(1), T: ast.Int}, v2.V{V: int64(2), T: ast.Int})
+				return nil
+			},
+		},
+		"move": {
+			Desc:      v2.FnDesc{Name: "move", Params: v2MoveParams, Returns: v2AnyRet},
+			CallCheck: v2check(v2MoveParams),
+			Call: func(ctx *v2.Task, e *ast.CallExpr) *errchain.PlError {
+				var out []any
+				for i := range v2MoveParams {
+					v, err := v2.GetParam(ctx, e, v2MoveParams, i)
+					if err != nil {
+						return err
+					}
+					out = append(out, v)
+				}
+				ctx.Regs.ReturnAppend(v2.V{V: out, T: ast.List})
 				return nil
 			},
 		},
